@@ -223,6 +223,33 @@ def run(ck, facts, tier):
         gotset = {(c, cel.vkey(v) if not (isinstance(v, Sym) and v.tag[0] == "diverges") else cel.vkey(Sym("diverges", "panic"))) for c, v in paths.flatten(got)}
         ck.check(r5, "index_left[left_count=%s]" % lcname, gotset in (want_a, want_b), "index_left is not the bisection recurrence (a changed shortcut, split or branch would select a wrong interval for some list length)",
                  where, detail="only in code: %s" % [(sorted(map(str, c))[:3], str(v)[:160]) for c, v in list(gotset - want_a)[:3]], sample="5 paths: abort / count / shortcut / left half / right half")
+    # ---------------- R11.6 the key conversion of the stored nodes is the one applied to the query date
+    r6 = ck.rule("R11.6", "Nodes -> NodesTimestamp keeps every node, in order, as (key.and_utc().timestamp(), value unchanged) for all three kinds — the same conversion "
+                          "the look-up applies to the query date, so a node carrying a time of day is found at that time", floor=3)
+    cf = "<curves::nodes::NodesTimestamp as std::convert::From<curves::nodes::Nodes>>::from"
+    rr = facts.fn(cf)
+    for var in ("F64", "Dual", "Dual2"):
+        if rr is None:
+            ck.fail(r6, "from[%s]" % var, "conversion not found")
+            continue
+        try:
+            M_ = Sym("param", "m")
+            src = cel.Coll(cel.Seq(M_, lambda idx: Tup([Sym("key", idx.key()), Sym("val", idx.key())])))
+            got = cel.Ev(facts).apply_fn(cf, [Sym("ctor", var, src)], 0)
+            ts = lambda k: Sym("m", "timestamp", cel.vkey(Sym("m", "and_utc", cel.vkey(k), ())), ())
+            want = Sym("ctor", var, cel.Coll(cel.Seq(M_, lambda idx: Tup([ts(Sym("key", idx.key())), Sym("val", idx.key())]))))
+            ck.check(r6, "from[%s]" % var, cel.vkey(got) == cel.vkey(want), "node keys are not converted with and_utc().timestamp() (or values/variant are altered): %s" % cel.vfmt(got)[:300],
+                     "%s:%d" % (rr["file"], rr["line"]), sample="(k.and_utc().timestamp(), v) for every node")
+        except Unsupported as e:
+            ck.fail(r6, "from[%s]" % var, "rule could not be established (%s)" % e, "%s:%d" % (rr["file"], rr["line"]))
+    # supply order also reaches the variable tags of a curve built with derivatives: nodes are sorted before they are enumerated (C12 R12.2)
+    from rules import c12
+    with ck.restrict({"R12.2"}):
+        nd_, tb_ = list(ck.not_decided), list(ck.trusted)
+        c12.run(ck, facts, tier)
+        ck.not_decided[:], ck.trusted[:] = nd_, tb_
+    from rules import pywrap
+    pywrap.run_curve_wrappers(ck, facts)          # what a Python user calls is the wrapper: it must hand its arguments to the core method unchanged
     ck.not_decided += ["index_left is decided as conformance to the bisection recurrence; that the recurrence meets the interval specification is an induction argument stated in the rule, not mechanised",
                        "'lies between the nodes' is a numerical consequence of R11.1, not separately evaluated", "curves with fewer than two nodes (index_left aborts on a one-element list; the statement quantifies over node counts >= 2)"]
     ck.trusted += ["lib/cel.py"]
